@@ -30,7 +30,7 @@ manifest = {
         "guard": "cargo feature `verif` (mos-core/verif, mos/verif)",
         "enable": "cargo build --release --offline --manifest-path /repo/mos/Cargo.toml --features verif --target-dir /verif/.build/mos-main ; probe: path dependency on /repo/mos-core with features=[\"verif\"]",
         "baseline_off_cmd": "cd /repo && cargo nextest run --workspace --no-fail-fast --offline",
-        "source_commits": ["694e25f", "9fd3370", "ad7f19c", "735cb11"],
+        "source_commits": ["694e25f", "9fd3370", "ad7f19c", "735cb11", "2a75486"],
         "add_only": True,
     },
     "engines": [
